@@ -59,7 +59,8 @@ func specDiffers(c *Case, want, impl string) bool {
 	return differs
 }
 
-var minusOneIndexRe = regexp.MustCompile(`\[(-1|0 - 1|\$j \+ 2)\]`)
+// an index expression that contains a minus sign or the standard environment's -3 (the only way the generators reach index -1)
+var minusOneIndexRe = regexp.MustCompile(`\[[^\]]*(-|\$j)[^\]]*\]`)
 
 // stable keys of the deviation families (matched against known_findings.json)
 var specKeys = map[string]string{}
